@@ -64,6 +64,14 @@ CHECKS.update({
             "additionally explored under all <= K drops/duplications of individual datagrams.",
             TB + "mcv/refpeer.RefBlockServer is the RFC 7959 oracle. Bodies <= 4096 bytes.",
             "DESIGN.md 6/C05"),
+    "C06": ("model_checking", E3,
+            "Block requests are pushed through Context.render_to_pipe into a Site with recording resources: all sequences to depth 3 "
+            "(quick) / 4-5 (thorough) over Block1 PUT/POST blocks (num 0-2, M, sizes 16/32, full/short/empty payload) from three "
+            "endpoints (two sharing an IP) to /a, /b, /a?q=1, Block2 GETs (num 0-4, SZX 0-2, renderings of 0-200 bytes), plain requests "
+            "and clock jumps around 93 s / 186 s, plus long transfers whose total duration exceeds the lifetime; dedup on spool, cache, "
+            "recently-accessed sets, timers and model. Response code, echoed option, exact slice, more-flag, handler invocations and "
+            "bodies are compared with a model of the statement at every step.",
+            TB + "Lifetime bounds computed from RFC defaults.", "DESIGN.md 6/C06"),
     "C07": ("model_checking", E1 + " (RFC 7641 s.3.4 verbatim)",
             "A scripted notifier feeds the real client (plain Request path and default BlockwiseRequest path) every sequence up to length 3 "
             "(quick) / 4 (thorough) over 33 items (Observe deltas around 0, +-1, +-2, +-2^23; inter-arrival 0/128/128.1 s), all ordered pairs "
